@@ -44,36 +44,38 @@ ASSUMPTIONS = [
     "leftovers of an interrupted update (temp files, checkpoints not yet cleaned) are counted, not asserted",
 ]
 BUDGET = {
-    "quick": dict(cases=10, shards=4, timeout=600),
+    "quick": dict(cases=12, shards=4, timeout=600),
     "thorough": dict(cases=60, shards=16, timeout=3000, time=500),
 }
-CLASSES = ["keep2_default", "keepall_default", "keep2_custom", "keepall_custom", "keep2_default",
-           "keepall_noepoch", "keep2_default", "keep2_noepoch", "keepall_default", "keepall_mixed"]
+CLASSES = ["keep2_default", "keepall_noepoch", "keepall_default", "keep2_noepoch", "keep2_custom",
+           "keepall_mixed", "keep2_default", "keepall_custom", "keepall_default", "keep2_default"]
 FLOORS = {
     "quick": {
-        "events": {"traced_update": 100, "recovery": 800, "assert:recovery-prefix": 800,
-                   "assert:recovery-last-params": 600, "assert:recovery-best-params": 600,
-                   "assert:recovery-final-csv": 600, "assert:recovery-final-load": 600,
-                   "assert:crash-free-files": 100, "real_process_death": 200},
-        "classes": {"keep2_default": 8, "keepall_default": 6, "keep2_custom": 3, "keepall_custom": 3,
-                    "keepall_noepoch": 3, "keep2_noepoch": 3, "keepall_mixed": 3,
-                    "branch_new_best": 15, "branch_prev_best": 8, "branch_older_best": 8,
-                    "first_update_no_csv": 30, "user_entries": 5, "lr_reduced": 5},
-        "stats": {"crash_states": 1000, "crash_states_real_exit": 250, "crash_model_faithful": 1,
-                  "state_csv_created_empty": 20, "state_temp_file_present": 100,
-                  "state_between_replaces": 50, "state_mid_cleanup": 20},
-        "sets": {"crash_state": 800, "crash_state_real_exit": 200, "crash_point": 8},
-        "distinct": 12,
+        "events": {"traced_update": 90, "recovery": 700, "real_process_death": 200,
+                   "assert:recovery-prefix": 2000, "assert:recovery-last-params": 500,
+                   "assert:recovery-best-params": 800, "assert:recovery-final-csv": 600,
+                   "assert:recovery-final-load": 1500, "assert:recovery-decision": 1200,
+                   "assert:crash-free-files": 90, "assert:crash-free-loadable": 30},
+        "classes": {"keep2_default": 12, "keepall_default": 6, "keep2_custom": 3, "keepall_custom": 3,
+                    "keepall_noepoch": 4, "keep2_noepoch": 3, "keepall_mixed": 3,
+                    "branch_new_best": 30, "branch_prev_best": 10, "branch_older_best": 6,
+                    "first_update_no_csv": 30, "user_entries": 12, "lr_reduced": 3},
+        "stats": {"crash_states": 700, "crash_states_real_exit": 200, "crash_model_faithful": 1,
+                  "state_csv_created_empty": 30, "state_temp_file_present": 400,
+                  "state_between_replaces": 80, "state_mid_cleanup": 25,
+                  "state_history_before_checkpoint": 60, "state_checkpoint_before_history": 60},
+        "sets": {"crash_state": 500, "crash_state_real_exit": 150, "crash_point": 8},
+        "distinct": 18,
     },
     "thorough": {
-        "events": {"traced_update": 3000, "recovery": 30000, "real_process_death": 20000},
-        "classes": {"keep2_default": 200, "keepall_default": 150, "keep2_custom": 60, "keepall_custom": 60,
-                    "keepall_noepoch": 60, "keep2_noepoch": 60, "keepall_mixed": 60, "two_faults": 200,
-                    "branch_new_best": 400, "branch_prev_best": 200, "branch_older_best": 200},
-        "stats": {"crash_states": 30000, "crash_states_real_exit": 20000, "crash_model_faithful": 1,
-                  "second_fault_states": 2000},
-        "sets": {"crash_state": 15000, "crash_state_real_exit": 10000, "crash_point": 8},
-        "distinct": 400,
+        "events": {"traced_update": 1500, "recovery": 15000, "real_process_death": 10000},
+        "classes": {"keep2_default": 150, "keepall_default": 80, "keep2_custom": 40, "keepall_custom": 40,
+                    "keepall_noepoch": 40, "keep2_noepoch": 40, "keepall_mixed": 40, "two_faults": 150,
+                    "branch_new_best": 400, "branch_prev_best": 150, "branch_older_best": 100},
+        "stats": {"crash_states": 15000, "crash_states_real_exit": 10000, "crash_model_faithful": 1,
+                  "second_fault_states": 1500, "state_csv_created_empty": 400},
+        "sets": {"crash_state": 8000, "crash_state_real_exit": 6000, "crash_point": 8},
+        "distinct": 250,
     },
 }
 EXHAUSTIVE = {"thorough": False}
@@ -405,6 +407,13 @@ def _recover(mon, T, scn, st, root, recs, final_csv, ref_infos, tracer=None, nes
                                        lambda: ctrl.load_model_and_optimizer_for_epoch(model, opt)))
     if L > 0:
         _check_loaded(mon, "recovery-last-params", facts, model, opt, L, recs[L]["lrs"], **det)
+    if not case["keep2"] and st.kind != "in":
+        # everything is kept: after a completed update every recorded epoch stays loadable
+        for e in range(1, L):
+            m1, o1 = G.make_model_opt(case["cfg"], case["groups"])
+            _with_facts(facts, lambda: mon.lib("recovery:load_model_and_optimizer_for_epoch",
+                                               lambda: ctrl.load_model_and_optimizer_for_epoch(m1, o1, e)))
+            _check_loaded(mon, "crash-free-loadable", facts, m1, o1, e, recs[e]["lrs"], asked=e, **det)
     b = scn.best(L)
     if b > 0:
         m2, _ = G.make_model_opt(case["cfg"], case["groups"])
@@ -544,7 +553,7 @@ def execute(case, mon):
         b = scn.best(k)
         mon.cls("branch_new_best" if b == k else "branch_prev_best" if b == k - 1 else "branch_older_best")
     tracer = TR.Tracer.get(T)
-    base = tempfile.mkdtemp(prefix="vmon-c16-")
+    base = G.scratch_dir("vmon-c16-")
     problems = []
     try:
         with warnings.catch_warnings():
